@@ -302,7 +302,17 @@ def rule_alloc_range(mod, rep, floor=60, sel=None):
                       "the array allocated at %s has %s elements but the access at %s reaches index %s in the last iteration of its loop: one element past the block is %s"
                       % (call.loc, pfmt(cnt), where, pfmt(ip), "written" if s.op == "store" else "read"), s.loc if via is None else via.loc, f.name)
         else:
-            n_und += 1
+            si = {t for k in ip for t in k}; sc = {t for k in cnt for t in k}
+            pn = {f.pname(k) for k in range(len(f.params))}
+            if si and sc and not (si & sc) and si <= pn and sc <= pn and via is None and s.op == "store":
+                # DIM-MIX: the loop runs over one dimension parameter, the array was sized with another one
+                rep.scope([f.name])
+                rep.check(False, "ALLOC-RANGE", "%s#%s[%s]/dim" % (f.name, call.callee, pfmt(ip)), "",
+                          "the array allocated at %s is sized by %s but the loop that fills it at %s runs up to index %s - a different dimension of the problem: for %s > %s the "
+                          "store leaves the block, for %s < %s the tail of the array is never written" % (call.loc, pfmt(cnt), s.loc, pfmt(ip), sorted(si)[0], sorted(sc)[0],
+                                                                                                         sorted(si)[0], sorted(sc)[0]), s.loc, f.name)
+            else:
+                n_und += 1
 
     for f in mod.funcs.values():
         if not f.blocks or (sel is not None and not sel(f)):
@@ -459,3 +469,267 @@ def rule_equed_last(mod, rep):
         rep.check(bad is None, "EQUED-LAST", "%s#after-laqgs" % f.name, "no store to *equed after the apply step",
                   "*equed is overwritten at %s after ?laqgs may have scaled A: the returned flag no longer describes the returned A and B" % (bad.loc if bad else ""),
                   bad.loc if bad else f.file, f.name)
+
+
+# ---------------------------------------------------------------------------------------------------------------------------------
+# FREE-MODE (C17): what a release routine frees does not depend on the mode flags of the call
+# ---------------------------------------------------------------------------------------------------------------------------------
+_MODE_FIELDS = ("refact", "fact", "usepr", "trans", "lwork", "SymmetricMode", "PrintStat", "nprocs")
+
+
+def rule_free_mode(mod, rep, floor=8):
+    from ..ir import expr_loads
+    rep.rule("FREE-MODE", "release routines (pxgstrf_finalize, Destroy_*, StatFree, p?gstrf_WorkFree, *_finalize): no call of superlu_free is (transitively) control dependent "
+             "on a test of one of the option flags refact / fact / usepr / trans / lwork - these describe the most recent call, not which call allocated the arrays "
+             "(p?gstrf_init(refact = YES) rewrites options->refact after the arrays were allocated under refact = NO), so a release guarded by them leaks in the documented "
+             "factor - refactor - finalize sequence. Guards on the object itself (NULL tests, storage type tags) are allowed", floor=floor)
+    for f in mod.funcs.values():
+        if not f.blocks or not _re.search(r"finalize|^Destroy_|StatFree|WorkFree", f.name):
+            continue
+        frees = [c for c in f.calls() if c.callee in ("superlu_free",)]
+        if not frees:
+            continue
+        cd = f.control_deps()
+        for c in frees:
+            seen = set(); work = [c.bb.id]; bad = None
+            while work and bad is None:
+                b = work.pop()
+                for (cb, _e) in cd.get(b, ()):
+                    if cb in seen:
+                        continue
+                    seen.add(cb); work.append(cb)
+                    t = f.blocks[cb].insts[-1]
+                    if t.op in ("br", "switch") and t.ops and t.ops[0][0] == "v":
+                        for L in expr_loads(f, t.ops[0]):
+                            for p in f.addr_paths(L):
+                                if p and p[-1][0] == "f" and p[-1][2] in _MODE_FIELDS:
+                                    bad = (t, p[-1][2])
+            rep.scope([f.name])
+            rep.check(bad is None, "FREE-MODE", "%s#free@%d" % (f.name, frees.index(c)), "release does not depend on an option flag",
+                      "the release at %s is executed only under a test of options->%s (at %s): arrays allocated by an earlier call under another value of the flag are never freed"
+                      % (c.loc, bad[1] if bad else "", bad[0].loc if bad else ""), c.loc, f.name)
+
+
+# ---------------------------------------------------------------------------------------------------------------------------------
+# STALE (C13): inside an iteration that updates X, nothing computed from X before the iteration is consumed
+# ---------------------------------------------------------------------------------------------------------------------------------
+def _arr_key(p):
+    """array identity of an element path: the path without its trailing index step; None for scalars"""
+    if p and p[-1] == ("i",):
+        return p[:-1]
+    return None
+
+
+def _call_written_arrays(mod, E, f, c):
+    from ..effects import EXT_WRITES
+    out = set()
+    name = c.callee or ""
+    if name.startswith("llvm.dbg") or name.startswith("llvm.lifetime"):
+        return out
+    if name in mod.funcs and mod.funcs[name].blocks:
+        idxs = [k for k in range(len(c.ops)) if E.writes_via_arg(name, k)]
+    else:
+        tab = EXT_WRITES.get(name, "default")
+        idxs = range(len(c.ops)) if (tab == "default" or tab is None) else tab
+    for k in idxs:
+        if k >= len(c.ops) or not f.is_ptr(c.ops[k]):
+            continue
+        for p in f.paths(c.ops[k]):
+            out.add(p[:-1] if p and p[-1] == ("i",) else p)
+    return out
+
+
+def rule_stale(mod, rep, pats=("?gsrfs",), floor=4):
+    from .. import effects
+    from ..ir import expr_insts
+    rep.rule("STALE", "iterative refinement (?gsrfs): for every loop that (may) modify the solution array X - by a store, or through a callee that writes through the pointer it is given - "
+             "an array W that is read inside the loop but not written inside it must not have been computed from X before the loop (its stores outside the loop have no data "
+             "dependence on loads of X or on calls that receive a pointer into X): the componentwise backward error of the returned X is formed with |op(A)||X| + |B| of that X, "
+             "not of the start vector", floor=floor)
+    E = effects.get(mod)
+    for pat in pats:
+        for prec, f in fam(mod, pat):
+            rep.scope([f.name])
+            n = 0
+            for h, body in f.loops():
+                ins_in = [x for b in body for x in f.blocks[b].insts]
+                written = set()
+                for x in ins_in:
+                    if x.op == "store":
+                        for p in f.addr_paths(x):
+                            k = _arr_key(p)
+                            if k is not None:
+                                written.add(k)
+                    elif x.op == "call":
+                        written |= _call_written_arrays(mod, E, f, x)
+                kX = f.pindex("X")
+                written_all = written
+                written = {w for w in written if w and w[0] == ("A", kX)}       # the iterate itself: the solution array handed in by the caller
+                if not written:
+                    continue
+                read = {}
+                for x in ins_in:
+                    if x.op == "load":
+                        for p in f.addr_paths(x):
+                            k = _arr_key(p)
+                            if k is not None and k not in written_all and k[0][0] in ("A", "C"):
+                                read.setdefault(k, x)
+                for wk, rd in sorted(read.items(), key=lambda kv: kv[1].i):
+                    # stores to W outside the loop
+                    bad = None
+                    for s in f.insts():
+                        if s.op != "store" or s.bb.id in body:
+                            continue
+                        if not any(_arr_key(p) == wk for p in f.addr_paths(s)):
+                            continue
+                        for d in expr_insts(f, s.ops[0], through_loads=False, through_calls=True, limit=600):
+                            srcs = set()
+                            if d.op == "load":
+                                srcs = {_arr_key(p) for p in f.addr_paths(d)}
+                            elif d.op == "call":
+                                for o in d.ops:
+                                    if f.is_ptr(o):
+                                        srcs |= {(p[:-1] if p and p[-1] == ("i",) else p) for p in f.paths(o)}
+                            hit = [k for k in srcs if k in written and k != wk]
+                            if hit:
+                                bad = (s, d, hit[0])
+                                break
+                        if bad:
+                            break
+                    n += 1
+                    key = "%s#loop@%s/%s" % (f.name, f.blocks[h].insts[0].ln, fmt_path(wk + (("i",),), f))
+                    if bad:
+                        rep.fail("STALE", "%s#%s" % (f.name, fmt_path(wk + (("i",),), f)),
+                                 "%s is read at %s inside the loop that starts at %s and updates %s, but it is only computed before that loop (store at %s from %s): every iteration after "
+                                 "the first consumes a value that belongs to the previous iterate" % (fmt_path(wk + (("i",),), f), rd.loc, f.blocks[h].insts[0].loc,
+                                                                                                          fmt_path(bad[2] + (("i",),), f), bad[0].loc, bad[1].loc), rd.loc, f.name)
+                    else:
+                        rep.ok("STALE", key, "not derived from an array the loop modifies", rd.loc, f.name)
+            if n == 0:
+                rep.brk("ANALYSIS-BROKEN STALE: no loop of %s reads an array it does not write" % f.name)
+
+
+# ---------------------------------------------------------------------------------------------------------------------------------
+# PG-INV (C12): pivot growth compares column j of U with the column of A that became column j of A*Pc
+# ---------------------------------------------------------------------------------------------------------------------------------
+def rule_pivot_growth_column(mod, rep):
+    from ..ir import expr_loads
+    rep.rule("PG-INV", "?PivotGrowth: column j of the factors belongs to column inv(perm_c)(j) of A (perm_c[i] = j says that column i of A is column j of A*Pc). The extent "
+             "Astore->colptr[c] .. colptr[c+1] read next to column j of U is therefore indexed by a value loaded from an inverse the routine builds itself (INV-FILL checks its "
+             "construction), never by perm_c[j] itself - the two agree only for involutions such as the natural ordering the tests use", floor=4)
+    for prec, f in fam(mod, "?PivotGrowth"):
+        rep.scope([f.name])
+        kA = f.pindex("A"); kp = f.pindex("perm_c")
+        n = 0; bad = None
+        for L in f.insts():
+            if L.op != "load":
+                continue
+            ps = f.addr_paths(L)
+            if not any(p and p[0] == ("A", kA) and path_has_field(p, "colptr") and p[-1] == ("i",) for p in ps):
+                continue
+            idx = gep_index(f, L.ops[0])
+            if idx is None:
+                continue
+            n += 1
+            for d in expr_loads(f, idx):
+                if any(p and p[0] == ("A", kp) for p in f.addr_paths(d)):
+                    bad = (L, d)
+        if n == 0:
+            rep.brk("ANALYSIS-BROKEN PG-INV: %s does not read A's column pointers" % f.name)
+            continue
+        rep.check(bad is None, "PG-INV", "%s#A-column" % f.name, "A's column is selected through the inverse of perm_c (%d extent reads)" % n,
+                  "the column of A compared with column j of U is perm_c[j] (loaded at %s): that is where column j of A went, not the column that arrived at j" % (bad[1].loc if bad else ""),
+                  bad[0].loc if bad else f.file, f.name)
+
+
+# ---------------------------------------------------------------------------------------------------------------------------------
+# QUICK-RET (C19): y / C is left untouched only when beta == 1 (or a dimension is zero)
+# ---------------------------------------------------------------------------------------------------------------------------------
+def rule_quick_return(mod, rep, floor=8):
+    from .. import effects
+    from ..ir import expr_insts
+    E = effects.get(mod)
+    rep.rule("QUICK-RET", "sp_?gemv / sp_?gemm compute y := alpha*op(A)*x + beta*y: a normal return that is reached without any write to the output operand (a store rooted at "
+             "y / c, or a call that writes through a pointer into it; a loop that contains such a write counts as the write, its trip count being a dimension) must lie behind an "
+             "edge on which a floating comparison that involves beta holds with equality, or behind a test of an integer dimension against zero, or behind the error handler: "
+             "with alpha == 0 alone the result is beta*y, not y", floor=floor)
+    for pat, outp in (("sp_?gemv", "y"), ("sp_?gemm", "c")):
+        for prec, f in fam(mod, pat):
+            rep.scope([f.name])
+            ko = f.pindex(outp)
+            if ko is None:
+                rep.brk("ANALYSIS-BROKEN QUICK-RET: %s has no parameter %s" % (f.name, outp))
+                continue
+            # beta is the C parameter in front of the output operand; a by-value complex is coerced into one or two unnamed IR arguments with the same C position
+            beta_args = {k for k in range(len(f.params)) if f.cpos[k] == f.cpos[ko] - 1}
+            if not beta_args or not all(f.pname(k) in ("beta", "") for k in beta_args):
+                rep.brk("ANALYSIS-BROKEN QUICK-RET: %s: the parameter in front of %s is not beta" % (f.name, outp))
+                continue
+            writes = set()
+            for x in f.insts():
+                if x.op == "store" and any(p and p[0] == ("A", ko) and len(p) > 1 for p in f.addr_paths(x)):
+                    writes.add(x.i)
+                elif x.op == "call" and x.callee and not x.callee.startswith("llvm.dbg"):
+                    for k, o in enumerate(x.ops):
+                        if f.is_ptr(o) and any(p and p[0] == ("A", ko) for p in f.paths(o)):
+                            if x.callee in mod.funcs and mod.funcs[x.callee].blocks:
+                                if E.writes_via_arg(x.callee, k):
+                                    writes.add(x.i)
+                            else:
+                                writes.add(x.i)
+            if not writes:
+                rep.brk("ANALYSIS-BROKEN QUICK-RET: %s never writes %s" % (f.name, outp))
+                continue
+            hdr_stop = set()
+            for h, body in f.loops():
+                if any(f.inst[w].bb.id in body for w in writes):
+                    hdr_stop.add(f.blocks[h].insts[0].i)
+            # the local copy of beta (address-taken by-value parameter): allocas that receive a beta argument
+            beta_cells = set()
+            for x in f.insts():
+                if x.op == "store":
+                    src = strip_casts(f, x.ops[0])
+                    if src[0] == "a" and src[1] in beta_args:
+                        for p in f.addr_paths(x):
+                            if p and p[0][0] == "L":
+                                beta_cells.add(p[0])
+
+            def involves_beta(o):
+                for d in expr_insts(f, o, through_loads=False, through_calls=False, limit=200):
+                    if d.op == "load" and any(p and (p[0] in beta_cells or (p[0][0] == "A" and p[0][1] in beta_args)) for p in f.addr_paths(d)):
+                        return True
+                    for y in d.ops if d.ops else ():
+                        if y and y[0] == "a" and y[1] in beta_args:
+                            return True
+                so = strip_casts(f, o)
+                return so[0] == "a" and so[1] in beta_args
+
+            dead = set()
+            for b in f.blocks:
+                t = b.insts[-1]
+                if t.op != "br" or not t.ops or t.ops[0][0] != "v" or len(t.tgt) < 2:
+                    continue
+                c = f.inst[t.ops[0][1]]
+                if c.op == "fcmp" and (involves_beta(c.ops[0]) or involves_beta(c.ops[1])):
+                    if c.pred in ("oeq", "ueq"):
+                        dead.add((b.id, t.tgt[0]))
+                    elif c.pred in ("one", "une"):
+                        dead.add((b.id, t.tgt[1]))
+                elif c.op == "icmp" and c.pred in ("eq", "ne", "sle", "slt", "sgt", "sge"):
+                    a0, a1 = strip_casts(f, c.ops[0]), strip_casts(f, c.ops[1])
+                    zero = (is_const(a1, 0) or is_const(a0, 0))
+                    if zero and c.pred == "eq":
+                        dead.add((b.id, t.tgt[0]))
+                    elif zero and c.pred == "ne":
+                        dead.add((b.id, t.tgt[1]))
+                    elif zero and c.pred in ("sle", "slt") and is_const(a1, 0):
+                        dead.add((b.id, t.tgt[0]))
+
+            def stop(x):
+                return x.i in writes or x.i in hdr_stop or (x.op == "call" and x.callee in ("xerbla_", "superlu_abort_and_exit"))
+            ent = f.blocks[0].insts[0]
+            R = f.reach([ent], stop=stop, dead_edges=dead, include_start=True)
+            bad = [f.inst[i] for i in R if f.inst[i].op == "ret"]
+            rep.check(not bad, "QUICK-RET", "%s#untouched-%s" % (f.name, outp), "every write-free return lies behind beta == 1, a zero dimension or the error handler",
+                      "the return at %s is reachable without any write to %s on a path that tests neither beta for equality nor a dimension for zero: %s := beta*%s is skipped "
+                      "(e.g. alpha == 0 with beta != 1)" % (bad[0].loc if bad else "", outp, outp, outp), bad[0].loc if bad else f.file, f.name)
